@@ -4,6 +4,7 @@ behaviour-preserving rewrites that must stay silent, applied to scratch copies o
 Edits are anchored on source text of the *scratch copy*; when an anchor has moved the case is
 skipped with a note (it never fails the run).  A mutant that compiles but is not reported, or a
 rewrite that raises an alarm, is a defect of the checker and fails the thorough run."""
+from .core import unlisted as core_unlisted
 import os
 
 from .scratch import Scratch, run_rule
@@ -95,7 +96,7 @@ def _mutant_job(args):
         if not sc.replace(rel, old, new, count=1 if mid != 'rename-private-helper' else 99):
             return {'mutant': mid, 'status': 'skipped', 'note': 'anchor text not found in the current tree'}
         c = run_rule(pid, sc.dir)
-        bad = [o for o in c.obligations if o['status'] != 'ok']
+        bad = core_unlisted(c)
         facts_fail = [o for o in bad if o['rule'] == 'facts']
         if facts_fail and pid != 'C20':
             return {'mutant': mid, 'status': 'skipped', 'note': 'mutant does not compile'}
@@ -133,7 +134,7 @@ def _silence_job(args):
         if not sc.replace(rel, old, new, count=99 if sid == 'rename-private-helper' else 1):
             return {'rewrite': sid, 'status': 'skipped', 'note': 'anchor text not found in the current tree'}
         c = run_rule(pid, sc.dir)
-        bad = [o for o in c.obligations if o['status'] != 'ok']
+        bad = core_unlisted(c)
         if any(o['rule'] == 'facts' for o in bad) and pid != 'C20':
             return {'rewrite': sid, 'status': 'skipped', 'note': 'rewrite does not compile'}
         return {'rewrite': sid, 'description': desc, 'status': 'silent' if not bad else 'ALARM',
@@ -179,7 +180,7 @@ def _patch_job(args):
         if not ok:
             return {'patch': name, 'kind': kind, 'status': 'skipped', 'note': 'patch no longer applies to the current tree'}
         c = run_rule(pid, sc.dir)
-        bad = [o for o in c.obligations if o['status'] != 'ok']
+        bad = core_unlisted(c)
         if any(o['rule'] == 'facts' for o in bad) and pid != 'C20':
             return {'patch': name, 'kind': kind, 'status': 'skipped', 'note': 'patched tree does not compile'}
         if kind == 'seed':
